@@ -13,12 +13,21 @@ func (r Realtime) SysEx() []byte {
 
 	bf.WriteByte(0xF0)
 	bf.WriteByte(0x7F)
-	bf.WriteByte(r.Channel)
-	bf.WriteByte(r.SubID1)
-	bf.WriteByte(r.SubID2)
+	bf.WriteByte(dataByte(r.Channel))
+	bf.WriteByte(dataByte(r.SubID1))
+	bf.WriteByte(dataByte(r.SubID2))
 
 	bf.WriteByte(0xF7)
 	return bf.Bytes()
+}
+
+// dataByte limits b to the range of a data byte (0-127): no byte above 127
+// may appear between the start and the end of a sysex message.
+func dataByte(b byte) byte {
+	if b > 0x7F {
+		return 0x7F
+	}
+	return b
 }
 
 const EveryChannel = 0x7F
